@@ -73,10 +73,26 @@ fn strategy(t: Tier) -> BoxedStrategy<APacket> {
     gen::apacket(t.pick(4, 6))
 }
 
+/// large packets (filler records up to 65535 bytes, names beyond offset 16383): only their size differs
+fn check_large(s: &gen::Sharing, case: &mut Case) -> Result<(), Fail> {
+    let p = s.assemble();
+    check(&p, case)?;
+    let size = encode_message(&p, &EncOpts::plain()).len();
+    case.class(match size {
+        0..=512 => "size<=512",
+        513..=4096 => "size<=4096",
+        4097..=9000 => "size<=9000",
+        9001..=16384 => "size<=16384",
+        _ => "size>16384",
+    });
+    case.nontrivial = size > 4096;
+    Ok(())
+}
+
 pub fn def() -> CheckDef {
     CheckDef {
         id: "C02",
-        rule: "proptest: abstract packets over every typed RDATA variant, unknown and empty RDATA, 5 classes, supported QTYPEs + IXFR/AXFR/MAILB/MAILA/ANY, binary labels 1..=63, names <= 255 incl. root, boundary-biased integers, 0..n entries per section, optional EDNS, named opcode/rcode, all flag subsets; built through public constructors, serialised uncompressed, parsed, observed field by field. A second section assembles packets through the other public constructors (TXT::try_from(&str) around multiples of 254 bytes, TXT::try_from(HashMap), with_string, SVCB/HTTPS setters, A/AAAA from std addresses, CharacterString::try_from) and requires the parsed packet to show what the built one shows. Non-trivial = >= 1 question or record; distinct by hash of the abstract packet",
+        rule: "proptest: abstract packets over every typed RDATA variant, unknown and empty RDATA, 5 classes, supported QTYPEs + IXFR/AXFR/MAILB/MAILA/ANY, binary labels 1..=63, names <= 255 incl. root, boundary-biased integers, 0..n entries per section, optional EDNS, named opcode/rcode, all flag subsets; built through public constructors, serialised uncompressed, parsed, observed field by field. A section `large` repeats the round trip on suffix-sharing packets with filler records (sizes up to 65535 bytes, classes by size). A further section assembles packets through the other public constructors (TXT::try_from(&str) around multiples of 254 bytes, TXT::try_from(HashMap), with_string, SVCB/HTTPS setters, A/AAAA from std addresses, CharacterString::try_from) and requires the parsed packet to show what the built one shows. Non-trivial = >= 1 question or record; distinct by hash of the abstract packet",
         assumptions: vec![
             "excluded by construction (wire-level aliasing or documented misuse): TXT without strings, NULL with empty data or a typed code, OPT pushed into additional_records, rcode > 15 without EDNS, Reserved opcode/rcode, LOC version != 0, unsorted NSEC windows, character strings > 255, empty labels, labels > 63",
             "observation uses the read-only byte hooks Label::verif_bytes / CharacterString::verif_bytes / TXT::verif_strings",
@@ -89,6 +105,7 @@ pub fn def() -> CheckDef {
                 cases: (300_000, 4_000_000),
                 check,
             }),
+            Box::new(PropSection { name: "large", rule: "the same round trip for packets of up to 65535 bytes", strategy: gen::sharing, cases: (40_000, 400_000), check: check_large }),
             Box::new(PropSection {
                 name: "constructors",
                 rule: "text / map / setter based constructors -> build_bytes_vec -> parse -> same observation",
